@@ -74,6 +74,11 @@ func main() {
 			usage()
 		}
 		os.Exit(replayMain(os.Args[2]))
+	case "free":
+		// pogverif free <mem|os|osmmap> <reps> <seed>   (meant for the -race build)
+		reps, _ := strconv.Atoi(os.Args[3])
+		seed, _ := strconv.ParseInt(os.Args[4], 10, 64)
+		os.Exit(freeMain(os.Args[2], reps, seed))
 	case "bases":
 		for _, b := range []string{"E", "CH", "CC", "SP", "ML", "HO", "LCS", "LCM", "FL"} {
 			base, err := explore.GetBase(b, cfgByName("BIGC"), 0)
